@@ -58,6 +58,16 @@ theorem mround_step {x y : ℝ} (h : y - x < 1) : mround y - mround x ≤ 1 := b
     exact_mod_cast this
   linarith [hx.2, hy.1]
 
+/-- an integer strictly closer than 1/2 is the rounded value -/
+theorem mround_eq_of_abs_lt {x : ℝ} {n : ℤ} (h : |(n : ℝ) - x| < 1 / 2) : mround x = n := by
+  have hx := abs_le.mp (mround_sub_le x)
+  have hn := abs_lt.mp h
+  have h1 : ((mround x : ℤ) : ℝ) - (n : ℝ) < 1 := by linarith [hx.2, hn.1]
+  have h2 : (n : ℝ) - ((mround x : ℤ) : ℝ) < 1 := by linarith [hx.1, hn.2]
+  have h1' : mround x - n < 1 := by exact_mod_cast h1
+  have h2' : n - mround x < 1 := by exact_mod_cast h2
+  omega
+
 theorem kround_eq (x : ℝ) : kround x = ((mround x : ℤ) : ℝ) := rfl
 
 theorem kround_sub_le (x : ℝ) : |kround x - x| ≤ 1 / 2 := mround_sub_le x
